@@ -6,10 +6,30 @@ Model: the decoder / parser of Model/Multipart.lean with `max_form_memory_size` 
 `max_parts` (`maxParts`) as parameters, and `_parse_urlencoded` of Model/Urlencode.lean.
 `Reach d0 d evs` = `d` is obtained from `d0` by any sequence of non-raising `receive_data` /
 `next_event` calls (the two public mutators), `evs` the events delivered on the way.
-Declared-length decisions (Content-Length vs max_content_length) belong to C09's model and are covered
-here by the stream oracle only.
+The request level (`Request._load_form_data`, `get_data`, `stream`, `make_form_data_parser`,
+`FormDataParser.parse`) is Model/FormLimitsRequest.lean: an access history is a list of `Op`, `run` gives
+what every access returned or raised; `LimitedStream` enters through the closed form of its reads over
+a `BytesIO`-like input (C09 owns its model).
+
+Clause → theorem map of the property text:
+* "never holds more than max_form_memory_size bytes of a non-file field": `field_bounded`,
+  `field_too_large_raises`; "… or of undelimited input" (header blocks, preamble, a body without
+  delimiter): `receive_respects_limit`, `receive_raises_iff`, `buffer_bounded(_decodeChunks)`; urlencoded
+  bodies: `urlencoded_read_bounded`, `urlencoded_accepts_iff`, `urlencoded_declared_too_large`;
+* "never accepts more than max_form_parts parts": `parts_bounded(_decodeChunks)`;
+* "never reads a body whose declared length exceeds max_content_length": `request_declared_too_large`;
+  "nor more than that many bytes of a server-terminated stream": `request_never_overreads`;
+* the request-level defaults and the way the limits reach the decoder: `limits_handed_on_unchanged`,
+  `request_glue_as_modelled`, `history_parser_limits`, `request_multipart_form`,
+  `request_urlencoded_form`, `form_after_get_data`;
+* "limits are pure guards": `limits_pure_guard`, `limits_pure_guard_form`, `limits_pure_guard_urlencoded`,
+  `request_limits_pure_guard`, and over every access history `history_limits_pure_guard`;
+* excluded: `LimitedStream(is_max=True).read()` stopping at the maximum without raising (F09b / F10b).
 -/
 import WzVerif.Lemmas.FormLimits
+import WzVerif.Lemmas.FormLimitsRequest
+import WzVerif.Lemmas.FormLimitsGuard
+import WzVerif.Gen.FormGlue
 namespace Wz.Props.C10
 open Wz Wz.Multipart Wz.Urlencode
 
@@ -229,5 +249,392 @@ theorem limits_pure_guard_urlencoded (m : Nat) (cl : Option Nat) (sched : List N
         · simp at hr
     subst hdata
     simpa [urlencodedRead] using h
+
+/-! ### the request level: `Request` → `FormDataParser` → `MultiPartParser` → `MultipartDecoder` -/
+
+/-- **The limits are handed on unchanged** (regenerated from wrappers/request.py and formparser.py by
+AST on every run). Every call in those two files that passes a keyword named after a limit passes the
+attribute / parameter of the same name (`max_parts` of the decoder is fed by `max_form_parts`): the
+chain `Request.max_* → make_form_data_parser → FormDataParser → MultiPartParser → MultipartDecoder` and
+`Request.stream → get_input_stream`. The only assignments to a limit anywhere in the two files are the
+three class defaults of `Request` (None, 500 000 bytes, 1000 parts) and the constructors storing
+their parameter; there is no `setattr` / `delattr`. A change that drops, replaces or resets a limit on
+the way (for instance only when the body was cached by `get_data()`) changes these tables. -/
+theorem limits_handed_on_unchanged :
+    (∀ r ∈ Gen.FormGlue.limitPlumbing,
+      r.2.2.2 = "self." ++ r.2.2.1 ∨ r.2.2.2 = r.2.2.1 ∨
+      (r.2.2.1 = "max_parts" ∧ r.2.2.2 = "self.max_form_parts")) ∧
+    Gen.FormGlue.limitPlumbing.map (fun r => (r.1, r.2.1)) =
+      [("request:Request.make_form_data_parser", "self.form_data_parser_class"),
+       ("request:Request.make_form_data_parser", "self.form_data_parser_class"),
+       ("request:Request.make_form_data_parser", "self.form_data_parser_class"),
+       ("request:Request.stream", "get_input_stream"),
+       ("formparser:parse_form_data", "FormDataParser"),
+       ("formparser:parse_form_data", "FormDataParser"),
+       ("formparser:parse_form_data", "FormDataParser"),
+       ("formparser:FormDataParser.parse_from_environ", "get_input_stream"),
+       ("formparser:FormDataParser._parse_multipart", "MultiPartParser"),
+       ("formparser:FormDataParser._parse_multipart", "MultiPartParser"),
+       ("formparser:MultiPartParser.parse", "MultipartDecoder"),
+       ("formparser:MultiPartParser.parse", "MultipartDecoder")] ∧
+    Gen.FormGlue.limitAssignments =
+      [("request:Request", "max_content_length", "None"),
+       ("request:Request", "max_form_memory_size", "500000"),
+       ("request:Request", "max_form_parts", "1000"),
+       ("formparser:FormDataParser.__init__", "self.max_form_memory_size", "max_form_memory_size"),
+       ("formparser:FormDataParser.__init__", "self.max_content_length", "max_content_length"),
+       ("formparser:FormDataParser.__init__", "self.max_form_parts", "max_form_parts"),
+       ("formparser:MultiPartParser.__init__", "self.max_form_memory_size", "max_form_memory_size"),
+       ("formparser:MultiPartParser.__init__", "self.max_form_parts", "max_form_parts")] := by
+  refine ⟨by decide +kernel, rfl, rfl⟩
+
+/-- **The request-level glue is the code the model was written for**: the statements (docstrings and
+comments dropped, `ast.unparse` normal form) of `Request.want_form_data_parsed`,
+`make_form_data_parser`, `_load_form_data`, `_get_stream_for_parsing`, `stream`, `data`, `get_data`,
+`form`, `files`, of `FormDataParser.__init__ / parse / _parse_multipart / _parse_urlencoded`, of
+`_chunk_iter` and of `MultiPartParser.__init__ / parse`, regenerated from the source on every run.
+Model/FormLimitsRequest.lean (`loadForm`, `getData`, `parseDispatch`, …) and the parser loop of
+Model/Multipart.lean (`formLoop`, `formEvent`) mirror exactly these statements. -/
+theorem request_glue_as_modelled :
+    Gen.FormGlue.wantFormDataParsed = [
+  "return bool(self.environ.get('CONTENT_TYPE'))"] ∧
+    Gen.FormGlue.makeFormDataParser = [
+  "return self.form_data_parser_class(stream_factory=self._get_file_stream, max_form_memory_size=self.max_form_memory_size, max_content_length=self.max_content_length, max_form_parts=self.max_form_parts, cls=self.parameter_storage_class)"] ∧
+    Gen.FormGlue.loadFormData = [
+  "if 'form' in self.__dict__:\n    return",
+  "if self.want_form_data_parsed:\n    parser = self.make_form_data_parser()\n    data = parser.parse(self._get_stream_for_parsing(), self.mimetype, self.content_length, self.mimetype_params)\nelse:\n    data = (self.stream, self.parameter_storage_class(), self.parameter_storage_class())",
+  "d = self.__dict__",
+  "d['stream'], d['form'], d['files'] = data"] ∧
+    Gen.FormGlue.getStreamForParsing = [
+  "cached_data = getattr(self, '_cached_data', None)",
+  "if cached_data is not None:\n    return BytesIO(cached_data)",
+  "return self.stream"] ∧
+    Gen.FormGlue.streamProperty = [
+  "if self.shallow:\n    raise RuntimeError(\"This request was created with 'shallow=True', reading from the input stream is disabled.\")",
+  "return get_input_stream(self.environ, max_content_length=self.max_content_length)"] ∧
+    Gen.FormGlue.dataProperty = [
+  "return self.get_data(parse_form_data=True)"] ∧
+    Gen.FormGlue.getData = [
+  "rv = getattr(self, '_cached_data', None)",
+  "if rv is None:\n    if parse_form_data:\n        self._load_form_data()\n    rv = self.stream.read()\n    if cache:\n        self._cached_data = rv",
+  "if as_text:\n    rv = rv.decode(errors='replace')",
+  "return rv"] ∧
+    Gen.FormGlue.formProperty = [
+  "self._load_form_data()",
+  "return self.form"] ∧
+    Gen.FormGlue.filesProperty = [
+  "self._load_form_data()",
+  "return self.files"] ∧
+    Gen.FormGlue.formDataParserInit = [
+  "if stream_factory is None:\n    stream_factory = default_stream_factory",
+  "self.stream_factory = stream_factory",
+  "self.max_form_memory_size = max_form_memory_size",
+  "self.max_content_length = max_content_length",
+  "self.max_form_parts = max_form_parts",
+  "if cls is None:\n    cls = t.cast('type[MultiDict[str, t.Any]]', MultiDict)",
+  "self.cls = cls",
+  "self.silent = silent"] ∧
+    Gen.FormGlue.formDataParserParse = [
+  "if mimetype == 'multipart/form-data':\n    parse_func = self._parse_multipart\nelif mimetype == 'application/x-www-form-urlencoded':\n    parse_func = self._parse_urlencoded\nelse:\n    return (stream, self.cls(), self.cls())",
+  "if options is None:\n    options = {}",
+  "try:\n    return parse_func(stream, mimetype, content_length, options)\nexcept ValueError:\n    if not self.silent:\n        raise",
+  "return (stream, self.cls(), self.cls())"] ∧
+    Gen.FormGlue.parseMultipart = [
+  "parser = MultiPartParser(stream_factory=self.stream_factory, max_form_memory_size=self.max_form_memory_size, max_form_parts=self.max_form_parts, cls=self.cls)",
+  "boundary = options.get('boundary', '').encode('ascii')",
+  "if not boundary:\n    raise ValueError('Missing boundary')",
+  "form, files = parser.parse(stream, boundary, content_length)",
+  "return (stream, form, files)"] ∧
+    Gen.FormGlue.parseUrlencoded = [
+  "if self.max_form_memory_size is not None and content_length is not None and (content_length > self.max_form_memory_size):\n    raise RequestEntityTooLarge()",
+  "if self.max_form_memory_size is None:\n    data = stream.read()\nelse:\n    chunks = []\n    remaining = self.max_form_memory_size + 1\n    while remaining > 0 and (chunk := stream.read(remaining)):\n        chunks.append(chunk)\n        remaining -= len(chunk)\n    if remaining <= 0:\n        raise RequestEntityTooLarge()\n    data = b''.join(chunks)",
+  "items = parse_qsl(data.decode(), keep_blank_values=True, errors='werkzeug.url_quote')",
+  "return (stream, self.cls(items), self.cls())"] ∧
+    Gen.FormGlue.chunkIter = [
+  "while True:\n    data = read(size)\n    if not data:\n        break\n    yield data",
+  "yield None"] ∧
+    Gen.FormGlue.multiPartParserInit = [
+  "self.max_form_memory_size = max_form_memory_size",
+  "self.max_form_parts = max_form_parts",
+  "if stream_factory is None:\n    stream_factory = default_stream_factory",
+  "self.stream_factory = stream_factory",
+  "if cls is None:\n    cls = t.cast('type[MultiDict[str, t.Any]]', MultiDict)",
+  "self.cls = cls",
+  "self.buffer_size = buffer_size"] ∧
+    Gen.FormGlue.multiPartParserParse = [
+  "current_part: Field | File",
+  "field_size: int | None = None",
+  "container: t.IO[bytes] | list[bytes]",
+  "_write: t.Callable[[bytes], t.Any]",
+  "parser = MultipartDecoder(boundary, max_form_memory_size=self.max_form_memory_size, max_parts=self.max_form_parts)",
+  "fields = []",
+  "files = []",
+  "for data in _chunk_iter(stream.read, self.buffer_size):\n    parser.receive_data(data)\n    event = parser.next_event()\n    while not isinstance(event, (Epilogue, NeedData)):\n        if isinstance(event, Field):\n            current_part = event\n            field_size = 0\n            container = []\n            _write = container.append\n        elif isinstance(event, File):\n            current_part = event\n            field_size = None\n            container = self.start_file_streaming(event, content_length)\n            _write = container.write\n        elif isinstance(event, Data):\n            if self.max_form_memory_size is not None and field_size is not None:\n                field_size += len(event.data)\n                if field_size > self.max_form_memory_size:\n                    raise RequestEntityTooLarge()\n            _write(event.data)\n            if not event.more_data:\n                if isinstance(current_part, Field):\n                    value = b''.join(container).decode(self.get_part_charset(current_part.headers), 'replace')\n                    fields.append((current_part.name, value))\n                else:\n                    container = t.cast(t.IO[bytes], container)\n                    container.seek(0)\n                    files.append((current_part.name, FileStorage(container, current_part.filename, current_part.name, headers=current_part.headers)))\n        event = parser.next_event()",
+  "return (self.cls(fields), self.cls(files))"] := by
+  exact ⟨rfl, rfl, rfl, rfl, rfl, rfl, rfl, rfl, rfl, rfl, rfl, rfl, rfl, rfl, rfl, rfl⟩
+
+/-- the read size of the multipart parser at the request level is `MultiPartParser`'s default
+`buffer_size` (regenerated from its signature), which `_parse_multipart` does not override
+(`request_glue_as_modelled`) -/
+theorem parser_buffer_size_as_modelled : Gen.Multipart.parserBufferSize = FormReq.bufferSize := rfl
+
+/-- **history_parser_limits.** For every request configuration, every body and **every access history**
+on one `Request` object (`get_data` with any flags, `.data`, `.stream.read()`, `.form`, `.files`,
+`.values`, `get_json`, in any order and number): every run of a parse function — whether it reads
+the input stream or the bytes cached by an earlier `get_data()` — is given exactly the request's
+`max_form_memory_size`, `max_form_parts` and declared content length. -/
+theorem history_parser_limits (c : FormReq.Cfg) (body : Bytes) (ops : List FormReq.Op) :
+    ∀ k ∈ (FormReq.run c (FormReq.fresh body) ops).2.calls,
+      k.mm = c.mm ∧ k.mp = c.mp ∧ k.contentLength = c.declared :=
+  FormReq.run_calls ops (w := FormReq.fresh body) (by intro k hk; simp [FormReq.fresh] at hk)
+
+/-- non-vacuity: `get_data()` first, then `.form`: one parser run, from the cache, with the limits; a
+50-byte field is refused under `max_form_memory_size = 20` on that path exactly as on the direct one -/
+example :
+    let c : FormReq.Cfg := ⟨none, some 20, some 1000, .multipart (str "b"), some 108, false⟩
+    let body := str "--b\r\nContent-Disposition: form-data; name=\"a\"\r\n\r\nvvvvvvvvvvvvvvvvvvvvvvvvvvvvvvvvvvvvvvvvvvvvvvvvvv\r\n--b--\r\n"
+    body.length = 108 ∧
+    (FormReq.run c (FormReq.fresh body) [.getData true false, .form]).2.calls = [⟨some 20, some 1000, some 108, true⟩] ∧
+    (FormReq.run c (FormReq.fresh body) [.getData true false, .form]).1 = [.bytes body, .exc "RequestEntityTooLarge"] ∧
+    (FormReq.run c (FormReq.fresh body) [.form]).1 = [.exc "RequestEntityTooLarge"] := by
+  decide +kernel
+
+/-- **request_never_overreads.** With `max_content_length = m` configured, **no access history** takes
+more than `m` bytes from `wsgi.input` — whether the length is declared, understated, overstated or
+absent, on a server-terminated stream or not, whatever the other limits, the content type and the
+body are. (Not terminated: at most the declared length, which is at most `m`, or nothing at all;
+terminated: `LimitedStream(…, m, is_max=True)`.) -/
+theorem request_never_overreads (c : FormReq.Cfg) (body : Bytes) (ops : List FormReq.Op) {m : Nat}
+    (h : c.mcl = some m) : FormReq.taken body (FormReq.run c (FormReq.fresh body) ops).2 ≤ m := by
+  rcases FormReq.mcl_cap h with ⟨l, hl, hlm⟩
+  have hb := (FormReq.inv_base (FormReq.run_inv ops (FormReq.fresh_inv c body))).2 l hl
+  unfold FormReq.taken
+  omega
+
+/-- **request_declared_too_large.** A declared length above `max_content_length` makes **every** access
+of every history answer RequestEntityTooLarge, and not a single byte is read (the request object stays
+as it was created). -/
+theorem request_declared_too_large (c : FormReq.Cfg) (body : Bytes) (ops : List FormReq.Op) {n m : Nat}
+    (hd : c.declared = some n) (hm : c.mcl = some m) (h : n > m) :
+    (FormReq.run c (FormReq.fresh body) ops).1 = ops.map (fun _ => FormReq.Obs.exc "RequestEntityTooLarge") ∧
+    FormReq.taken body (FormReq.run c (FormReq.fresh body) ops).2 = 0 := by
+  have hc : FormReq.chooseStream c = none := by simp [FormReq.chooseStream, hd, hm, h]
+  rw [FormReq.run_tooLarge ops hc ⟨rfl, rfl, rfl, rfl, rfl⟩]
+  simp [FormReq.taken, FormReq.fresh]
+
+/-- non-vacuity: 108-byte body declared truthfully, `max_content_length = 100`: five different
+accesses, all 413; and the border of the streaming maximum: a server-terminated body of exactly
+`max_content_length` bytes is read completely by `get_data()` but refused by the multipart parser (its
+read after the last byte finds the stream at the maximum), one byte more room and it parses -/
+example :
+    let body := str "--b\r\nContent-Disposition: form-data; name=\"a\"\r\n\r\nvvvvvvvvvvvvvvvvvvvvvvvvvvvvvvvvvvvvvvvvvvvvvvvvvv\r\n--b--\r\n"
+    (FormReq.run ⟨some 100, none, none, .multipart (str "b"), some 108, false⟩ (FormReq.fresh body)
+      [.form, .getData true false, .streamRead, .data, .json true]).1 =
+      [.exc "RequestEntityTooLarge", .exc "RequestEntityTooLarge", .exc "RequestEntityTooLarge",
+       .exc "RequestEntityTooLarge", .exc "RequestEntityTooLarge"] ∧
+    (FormReq.run ⟨some 108, none, none, .multipart (str "b"), none, true⟩ (FormReq.fresh body) [.form]).1 =
+      [.exc "RequestEntityTooLarge"] ∧
+    (FormReq.run ⟨some 108, none, none, .multipart (str "b"), none, true⟩ (FormReq.fresh body)
+      [.getData false false]).1 = [.bytes body] ∧
+    (FormReq.run ⟨some 109, none, none, .multipart (str "b"), none, true⟩ (FormReq.fresh body) [.form]).1 =
+      [.fields [(some ['a'], List.replicate 50 'v')]] := by
+  decide +kernel
+
+/-- **history_form_source.** After **any** access history, a form access (`.form`, `.files`, `.values`)
+shows one of exactly three things: the form that an earlier access already loaded; or the parse — by
+the parser built from the request's limits — of the bytes an earlier `get_data()` cached (when
+`_cached_data` is set `wsgi.input` is not touched again); or the parse of what the request's stream can
+still deliver at that moment: the whole body if nothing read it before, what is left (usually nothing,
+hence an empty form) if `get_data(cache=False)` or `.stream.read()` consumed it. There is no fourth
+source and no other limits. -/
+theorem history_form_source (c : FormReq.Cfg) (body : Bytes) (ops : List FormReq.Op) {op : FormReq.Op}
+    (h : op.isFormAccess = true) (hm : c.mime ≠ .absent) :
+    let w := (FormReq.run c (FormReq.fresh body) ops).2
+    (FormReq.stepOp c w op).1 =
+      match w.form, w.cached with
+      | some r, _ => FormReq.obsOf op (.ok r)
+      | none, some d => FormReq.obsOf op (FormReq.parseFrom c (.bio d) w.input).1
+      | none, none =>
+        match FormReq.getStream c w with
+        | .error e => .exc e
+        | .ok (s, w1) => FormReq.obsOf op (FormReq.parseFrom c s w1.input).1 := by
+  intro w
+  cases hf : w.form with
+  | some r => exact FormReq.formAccess_loaded c hf h
+  | none =>
+    cases hcd : w.cached with
+    | some d => exact FormReq.formAccess_cached c hcd hf hm h
+    | none => exact FormReq.formAccess_stream c hcd hf hm h
+
+/-- the stream was consumed without caching: the form is empty, not an error and not a second parse
+of the body -/
+example :
+    let body := str "--b\r\nContent-Disposition: form-data; name=a\r\n\r\n1\r\n--b--\r\n"
+    (FormReq.run ⟨none, some 100, some 5, .multipart (str "b"), some 57, false⟩ (FormReq.fresh body)
+      [.getData false false, .form, .getData true false]).1 = [.bytes body, .fields [], .bytes []] ∧
+    (FormReq.run ⟨none, some 100, some 5, .multipart (str "b"), some 57, false⟩ (FormReq.fresh body)
+      [.data, .form, .streamRead]).1 = [.bytes [], .fields [(some ['a'], ['1'])], .bytes []] := by
+  decide +kernel
+
+/-- **form_after_get_data.** Reading the body with `get_data()` (cache=True, any number of times) before
+asking for `.form`, `.files` or `.values` changes nothing: for every configuration — **every combination
+of the three limits** — whose input stream ends cleanly (`endErr = none`: a declared length that the
+body reaches, or a server-terminated body strictly shorter than `max_content_length`, or no maximum),
+every content type and every body, the form access shows exactly what it shows on a request that is
+asked for the form directly: the same fields / files, or the same RequestEntityTooLarge. In
+particular the limits are enforced on the cached bytes exactly as on the stream. -/
+theorem form_after_get_data (c : FormReq.Cfg) (body : Bytes) {s0 : FormReq.Strm}
+    (hc : FormReq.chooseStream c = some s0) (he : FormReq.endErr s0 body = none) (k : Nat)
+    {op : FormReq.Op} (h : op.isFormAccess = true) :
+    (FormReq.run c (FormReq.fresh body) (List.replicate (k + 1) (.getData true false) ++ [op])).1 =
+      List.replicate (k + 1) (.bytes (FormReq.avail s0 body)) ++ (FormReq.run c (FormReq.fresh body) [op]).1 :=
+  FormReq.form_after_get_data_lemma c body hc he k h
+
+/-- the hypothesis is needed: a server-terminated body of exactly `max_content_length` bytes is handed
+out by `get_data()` and then parses from the cache, while the direct form access is refused (the
+parser's read after the last byte finds the stream at its maximum) -/
+theorem form_after_get_data_needs_clean_end :
+    ¬ (∀ (c : FormReq.Cfg) (body : Bytes) (s0 : FormReq.Strm), FormReq.chooseStream c = some s0 →
+        (FormReq.run c (FormReq.fresh body) [.getData true false, .form]).1 =
+          [.bytes (FormReq.avail s0 body)] ++ (FormReq.run c (FormReq.fresh body) [.form]).1) := by
+  intro h
+  have := h ⟨some 57, none, none, .multipart (str "b"), none, true⟩
+    (str "--b\r\nContent-Disposition: form-data; name=a\r\n\r\n1\r\n--b--\r\n") (.limited 57 0 true) (by decide)
+  revert this
+  decide +kernel
+
+example :
+    FormReq.chooseStream ⟨none, some 20, some 1000, .urlencoded, some 5, false⟩ = some (.limited 5 0 false) ∧
+    FormReq.endErr (.limited 5 0 false) (str "a=b&c") = none ∧
+    FormReq.endErr (.limited 60 0 true) (str "a=b&c") = none ∧
+    FormReq.endErr .raw (str "a=b&c") = none ∧
+    FormReq.Op.isFormAccess .files = true := by
+  decide +kernel
+
+/-- **request_multipart_form.** The first form access on a fresh request with content type
+`multipart/form-data; boundary=bnd` whose stream ends cleanly shows `MultiPartParser.parse` — the
+parser model of C01 / C10, run with **the request's** `max_form_memory_size` and `max_form_parts` and
+64 KiB reads over the bytes the stream delivers — with `silent=True` applied (a ValueError gives the
+empty form, RequestEntityTooLarge escapes). All decoder- and parser-level theorems above
+(`buffer_bounded`, `parts_bounded`, `field_bounded`, `field_too_large_raises`, `limits_pure_guard_form`)
+therefore speak about `Request.form` / `Request.files`. -/
+theorem request_multipart_form (c : FormReq.Cfg) (body bnd : Bytes) {s0 : FormReq.Strm}
+    (hm : c.mime = .multipart bnd) (hb : bnd ≠ []) (hc : FormReq.chooseStream c = some s0)
+    (he : FormReq.endErr s0 body = none) {op : FormReq.Op} (h : op.isFormAccess = true) :
+    (FormReq.run c (FormReq.fresh body) [op]).1 =
+      [FormReq.obsOf op (FormReq.silence
+        (formParse bnd c.mm c.mp FormReq.bufferSize [] (FormReq.avail s0 body)))] := by
+  have hne : c.mime ≠ .absent := by rw [hm]; simp
+  simp only [FormReq.run]
+  rw [FormReq.formAccess_fresh c body hc hne h]
+  unfold FormReq.parseFrom
+  rw [hm, FormReq.parseDispatch_multipart_fst hb, FormReq.parseMultipartS_clean bnd c.mm c.mp he]
+
+/-- **request_urlencoded_form.** … and with `application/x-www-form-urlencoded` it shows
+`_parse_urlencoded` of C10 (`parseUrlencoded`: declared-length check against `max_form_memory_size`,
+bounded read, `parse_qsl`) with the request's limit and declared length; `urlencoded_read_bounded`,
+`urlencoded_accepts_iff` and `limits_pure_guard_urlencoded` therefore speak about `Request.form`. -/
+theorem request_urlencoded_form (c : FormReq.Cfg) (body : Bytes) {s0 : FormReq.Strm}
+    (hm : c.mime = .urlencoded) (hc : FormReq.chooseStream c = some s0)
+    (he : FormReq.endErr s0 body = none) {op : FormReq.Op} (h : op.isFormAccess = true) :
+    (FormReq.run c (FormReq.fresh body) [op]).1 =
+      [FormReq.obsOf op (FormReq.silence (FormReq.urlForm
+        (parseUrlencoded c.mm c.declared [] (FormReq.avail s0 body))))] := by
+  have hne : c.mime ≠ .absent := by rw [hm]; simp
+  simp only [FormReq.run]
+  rw [FormReq.formAccess_fresh c body hc hne h]
+  unfold FormReq.parseFrom
+  rw [hm, FormReq.parseDispatch_urlencoded_fst, FormReq.parseUrlencodedS_clean c.mm c.declared he]
+
+/-- **request_limits_pure_guard.** Pure guard at the request level, for either parse function: if the
+parser succeeds under the request's limits, then `.form` / `.files` / `.values` show the same result on
+the request with the limits and on the same request with all three limits removed (`max_content_length`
+included: without it the stream is the same or, on a terminated input, the raw stream). Stated for
+streams that end cleanly under the limits; the case excluded by that hypothesis on a server-terminated
+input — a body at or above `max_content_length` — is the border of F09b / F10b. -/
+theorem request_limits_pure_guard (c : FormReq.Cfg) (body bnd : Bytes) {s0 s1 : FormReq.Strm}
+    (hm : c.mime = .multipart bnd) (hb : bnd ≠ [])
+    (hc : FormReq.chooseStream c = some s0) (he : FormReq.endErr s0 body = none)
+    (hc1 : FormReq.chooseStream { c with mcl := none, mm := none, mp := none } = some s1)
+    (he1 : FormReq.endErr s1 body = none) (ha : FormReq.avail s1 body = FormReq.avail s0 body)
+    {r : FormReq.FormRes}
+    (hok : formParse bnd c.mm c.mp FormReq.bufferSize [] (FormReq.avail s0 body) = .ok r)
+    {op : FormReq.Op} (h : op.isFormAccess = true) :
+    (FormReq.run c (FormReq.fresh body) [op]).1 = [FormReq.obsOf op (.ok r)] ∧
+    (FormReq.run { c with mcl := none, mm := none, mp := none } (FormReq.fresh body) [op]).1 =
+      [FormReq.obsOf op (.ok r)] := by
+  constructor
+  · rw [request_multipart_form c body bnd hm hb hc he h, hok]; rfl
+  · rw [request_multipart_form _ body bnd (by simpa using hm) hb hc1 he1 h, ha]
+    simp only
+    rw [limits_pure_guard_form bnd c.mm c.mp _ _ _ hok]; rfl
+
+/-- non-vacuity of `request_limits_pure_guard`: a 57-byte multipart body on a server-terminated input,
+all three limits set and not exceeded; without limits the stream is the raw input, which delivers the
+same bytes and ends cleanly -/
+example :
+    let c : FormReq.Cfg := ⟨some 200, some 100, some 5, .multipart (str "b"), none, true⟩
+    let body := str "--b\r\nContent-Disposition: form-data; name=a\r\n\r\n1\r\n--b--\r\n"
+    FormReq.chooseStream c = some (.limited 200 0 true) ∧ FormReq.endErr (.limited 200 0 true) body = none ∧
+    FormReq.chooseStream { c with mcl := none, mm := none, mp := none } = some .raw ∧
+    FormReq.endErr .raw body = none ∧ FormReq.avail .raw body = FormReq.avail (.limited 200 0 true) body ∧
+    (formParse (str "b") c.mm c.mp FormReq.bufferSize [] (FormReq.avail (.limited 200 0 true) body)).toOption =
+      some ([(some ['a'], ['1'])], []) := by
+  decide +kernel
+
+/-- **history_limits_pure_guard.** Limits are pure guards over **every access history**: for every
+request configuration — all three limits, any content type, declared length present, absent,
+understated or overstated, terminated or not —, every body that on a server-terminated input stays
+strictly below `max_content_length` (`Fits`) and every history of accesses on one `Request` object: up
+to the first access that answers RequestEntityTooLarge, every access shows exactly what the same access
+shows on the same request with all three limits removed — the same bytes, the same fields, the same
+files, the same exception. (The proof is a simulation between the two requests in which a run of a
+parse function under limits either raises 413 or agrees with the run without limits event for event
+and *error for error*, so that `silent=True` cannot turn a difference into an empty form.) -/
+theorem history_limits_pure_guard (c : FormReq.Cfg) (body : Bytes) (hf : FormReq.Fits c body)
+    (ops : List FormReq.Op) (k : Nat)
+    (hno : ∀ o ∈ (FormReq.run c (FormReq.fresh body) ops).1.take k, o ≠ .exc "RequestEntityTooLarge") :
+    (FormReq.run c (FormReq.fresh body) ops).1.take k =
+      (FormReq.run (FormReq.free c) (FormReq.fresh body) ops).1.take k := by
+  rw [← FormReq.run_take, ← FormReq.run_take]
+  apply FormReq.run_sim hf (ops.take k) (FormReq.fresh_wsim body)
+  rw [FormReq.run_take]
+  exact hno
+
+/-- the request without limits really has none, and everything else unchanged -/
+theorem free_request (c : FormReq.Cfg) :
+    (FormReq.free c).mcl = none ∧ (FormReq.free c).mm = none ∧ (FormReq.free c).mp = none ∧
+    (FormReq.free c).mime = c.mime ∧ (FormReq.free c).declared = c.declared ∧
+    (FormReq.free c).terminated = c.terminated := ⟨rfl, rfl, rfl, rfl, rfl, rfl⟩
+
+/-- `Fits` is needed, and what it excludes is the known finding (F09b / F10b): on a server-terminated
+input a body longer than `max_content_length` is handed out truncated by `get_data()` — no exception,
+different bytes than without the limit -/
+theorem history_limits_pure_guard_needs_fits :
+    ¬ (∀ (c : FormReq.Cfg) (body : Bytes) (ops : List FormReq.Op),
+        (∀ o ∈ (FormReq.run c (FormReq.fresh body) ops).1, o ≠ .exc "RequestEntityTooLarge") →
+        (FormReq.run c (FormReq.fresh body) ops).1 = (FormReq.run (FormReq.free c) (FormReq.fresh body) ops).1) := by
+  intro h
+  have := h ⟨some 4, none, none, .other, none, true⟩ (str "abcdefgh") [.getData true false] (by decide +kernel)
+  revert this
+  decide +kernel
+
+/-- non-vacuity: `Fits` holds for a 57-byte body under a streaming maximum of 60 and whenever the input
+is not server-terminated; a five-access history without a 413 -/
+example :
+    let body := str "--b\r\nContent-Disposition: form-data; name=a\r\n\r\n1\r\n--b--\r\n"
+    let c : FormReq.Cfg := ⟨some 60, some 100, some 5, .multipart (str "b"), none, true⟩
+    (FormReq.run c (FormReq.fresh body) [.getData true false, .form, .files, .data, .streamRead]).1 =
+      [.bytes body, .fields [(some ['a'], ['1'])], .files [], .bytes body, .bytes []] := by
+  decide +kernel
+
+example (c : FormReq.Cfg) (body : Bytes) (h : c.terminated = false) : FormReq.Fits c body := by
+  intro ht; rw [h] at ht; cases ht
+
+example : FormReq.Fits ⟨some 60, some 100, some 5, .multipart (str "b"), none, true⟩ (List.replicate 57 0) := by
+  intro _ m hm
+  simp at hm
+  subst hm
+  decide
 
 end Wz.Props.C10
